@@ -53,7 +53,8 @@ h_lower(const TranslationTableHeader *t, widechar v) {
 	return character->value;
 }
 
-/* does the character have a CTO_Hyphen rule on its otherRules chain (as isHyphen reads it) */
+/* is the character a hyphen character: does it have a `hyphen' rule among its own one-character rules (the otherRules chain
+ * of its character record, linked through charsnext like every chain of forward rules) */
 static int
 h_isHyphen(const TranslationTableHeader *t, widechar c) {
 	const TranslationTableCharacter *ch = h_getChar(t, c);
@@ -61,7 +62,7 @@ h_isHyphen(const TranslationTableHeader *t, widechar c) {
 	while (o) {
 		const TranslationTableRule *r = (const TranslationTableRule *)&t->ruleArea[o];
 		if (r->opcode == CTO_Hyphen) return 1;
-		o = r->dotsnext;
+		o = r->charsnext;
 	}
 	return 0;
 }
